@@ -15,6 +15,9 @@ use serde_json::json;
 pub struct Case {
     pub cloud: bool,
     pub anchors: bool,
+    /// start with a full window of remembered headers in the tracker
+    #[serde(default)]
+    pub full_window: bool,
     pub ops: Vec<Op>,
 }
 
@@ -60,10 +63,14 @@ impl Prop for C10 {
     }
     fn strategy(&self, tier: Tier) -> BoxedStrategy<Case> {
         let n = tier.pick(40usize, 100usize);
-        (prop::bool::weighted(0.4), any::<bool>(), proptest::collection::vec(op_strat(true), 1..n)).prop_map(|(cloud, anchors, ops)| Case { cloud, anchors, ops }).boxed()
+        (prop::bool::weighted(0.4), any::<bool>(), prop::bool::weighted(0.4), proptest::collection::vec(op_strat(true), 1..n)).prop_map(|(cloud, anchors, full_window, ops)| Case { cloud, anchors, full_window, ops }).boxed()
     }
     fn run(&self, case: &Case, st: &mut CaseStats, ctx: &Ctx) -> Result<(), Violation> {
         let mut m = Machine::new(case.cloud, case.anchors);
+        if case.full_window {
+            m.fill_header_window();
+            st.class("full_header_window");
+        }
         let mut trace = vec![];
         // expand the two-request macro ops so that every request gets its own before/after
         let mut prim: Vec<Op> = vec![];
@@ -78,7 +85,10 @@ impl Prop for C10 {
                     prim.push(Op::CSign { ch: *ch, d: 0, wrong_point: false, c: c.clone(), phase1: false });
                     prim.push(Op::CRevoke { ch: *ch, d: 0, sec: SecSel::Matching });
                 }
-                o => prim.push(o.clone()),
+                o => match expand_macro(o) {
+                    Some(ps) => prim.extend(ps),
+                    None => prim.push(o.clone()),
+                },
             }
         }
         for (i, op) in prim.iter().enumerate() {
@@ -100,7 +110,11 @@ impl Prop for C10 {
                 if trace.len() < 60 {
                     trace.push(json!({"i": i, "op": op, "kind": r.kind, "result": r.tag, "err": r.err}));
                 }
-                if r.tag != "err" {
+                // a declined approval (Ok(false): the velocity limit would be exceeded) is a refusal
+                // too; only the velocity controls themselves are not compared for it (the
+                // attempt legitimately rotates their buckets)
+                let declined = r.tag == "declined";
+                if r.tag != "err" && !declined {
                     continue;
                 }
                 if let Some(n) = r.muts {
@@ -123,7 +137,19 @@ impl Prop for C10 {
                 if after.channels.len() > before.channels.len() {
                     diffs.push("channel(added)".into());
                 }
-                diff_values("node", &before.node, &after.node, &mut diffs);
+                if declined {
+                    let strip = |v: &serde_json::Value| {
+                        let mut v = v.clone();
+                        if let Some(o) = v.as_object_mut() {
+                            o.remove("velocity");
+                            o.remove("fee_velocity");
+                        }
+                        v
+                    };
+                    diff_values("node", &strip(&before.node), &strip(&after.node), &mut diffs);
+                } else {
+                    diff_values("node", &before.node, &after.node, &mut diffs);
+                }
                 diff_values("tracker", &before.tracker, &after.tracker, &mut diffs);
                 if diffs.is_empty() && dump_before != dump_after {
                     let changed: Vec<String> = dump_after.iter().filter(|e| !dump_before.contains(e)).map(|e| e.0.split('/').take(2).collect::<Vec<_>>().join("/")).collect();
